@@ -163,11 +163,11 @@ def run_shape(shape):
             # Cartesian mode: the position part is entirely concrete (parsed radii, generated directions), so the REAL Qhull classes run
             # (SphericalVoronoi for the directions, scipy.spatial.Voronoi / ConvexHull for the cells); only the 4-D rotation cells are stubs
             ctx = (bound(RO, HalfRotobjVoronoi=half_factory, print=noprint),
-                   bound(F, bmat=sp.bmat, kron=sp.kron, identity=sp.identity, eye=sp.eye, coo_array=sp.coo_array, diags=sp.diags, print=noprint, np=proxy),
+                   bound(F, bmat=sp.bmat, kron=sp.kron, identity=sp.identity, eye=sp.eye, block_diag=sp.block_diag, coo_matrix=sp.coo_array, csr_matrix=sp.csr_array, csc_matrix=sp.csc_array, csr_array=sp.csr_array, csc_array=sp.csc_array, coo_array=sp.coo_array, diags=sp.diags, print=noprint, np=proxy),
                    bound(TR, np=proxy, print=noprint), bound(Vm, coo_array=sp.coo_array, print=noprint, np=proxy))
         else:
             ctx = (bound(RO, RotobjVoronoi=Vor3Stub, HalfRotobjVoronoi=half_factory, print=noprint),
-                   bound(F, bmat=sp.bmat, kron=sp.kron, identity=sp.identity, eye=sp.eye, coo_array=sp.coo_array, diags=sp.diags, print=noprint, np=proxy),
+                   bound(F, bmat=sp.bmat, kron=sp.kron, identity=sp.identity, eye=sp.eye, block_diag=sp.block_diag, coo_matrix=sp.coo_array, csr_matrix=sp.csr_array, csc_matrix=sp.csc_array, csr_array=sp.csr_array, csc_array=sp.csc_array, coo_array=sp.coo_array, diags=sp.diags, print=noprint, np=proxy),
                    bound(TR, np=proxy, print=noprint), bound(Vm, coo_array=sp.coo_array, print=noprint, np=proxy))
         with contextlib.ExitStack() as st:
             for c_ in ctx:
